@@ -11,7 +11,7 @@ contract(M + "_empty_pcbo", props=["C03"], instances=[{"pcso": "model:PCSO"}],
          ensures=["is_empty(result)", "result._ancilla == pcso._ancilla", "isfresh(result)", "wf(result)"])
 
 contract(M + "PCSO.add_constraint_eq_zero", props=["C03", "C16", "C19"], taint=["lam"],
-         instances=[{"self": "model:PCSO", "H": h, "lam": "real", "bounds": b, "suppress_warnings": "const:False"}
+         instances=[{"self": "model:PCSO", "H": h, "lam": "real", "bounds": b, "suppress_warnings": "bool"}
                     for h in ("termdict", "model:PUSO", "model:PCSO", "model:QUSO") for b in BND],
          requires=["wf(self)", "lam > 0", "isint(sden(H))", "encloses(bounds, sden(H))",
                    "wf(H) if not typeis(H, 'dict') else True", "distinct(self, H)"],
@@ -29,7 +29,7 @@ _N = "(self._ancilla - old(self._ancilla))"
 def _ineq(name, holds, wit):
     contract(M + "PCSO." + name, props=["C03", "C16", "C19"], taint=["lam"],
              instances=[{"self": "model:PCSO", "H": h, "lam": "real", "log_trick": "bool", "bounds": b,
-                         "suppress_warnings": "const:False"}
+                         "suppress_warnings": "bool"}
                         for h in ("termdict", "model:PUSO", "model:PCSO") for b in ("none", "tuple:real,real", "tuple:none,real")],
              requires=["wf(self)", "lam > 0", "isint(sden(H))", "encloses(bounds, sden(H))",
                        "wf(H) if not typeis(H, 'dict') else True", "distinct(self, H)"],
@@ -49,7 +49,7 @@ _ineq("add_constraint_gt_zero", "sden(H) > 0", "sden(H) - 1")
 
 contract(M + "PCSO.add_constraint_ne_zero", props=["C03", "C16", "C19"], taint=["lam"],
          instances=[{"self": "model:PCSO", "H": h, "lam": "real", "log_trick": "bool", "bounds": b,
-                     "suppress_warnings": "const:False"}
+                     "suppress_warnings": "bool"}
                     for h in ("termdict", "model:PUSO", "model:PCSO") for b in ("none", "tuple:real,real", "tuple:none,real")],
          requires=["wf(self)", "lam > 0", "isint(sden(H))", "encloses(bounds, sden(H))",
                    "wf(H) if not typeis(H, 'dict') else True", "distinct(self, H)"],
